@@ -240,6 +240,74 @@ func checkC06(c *Ctx) {
 			}
 			over := g.iff.Block().Succs[g.overEdge]
 			under := g.iff.Block().Succs[1-g.overEdge]
+			// the gate may sit in a helper that reports its verdict as a bool: then the
+			// over-limit edge must report false, and at every call site the false outcome
+			// must not reach MAIL while the true outcome can
+			if bt, isB := resultIsBool(fn); isB && bt && eng.BlockReaches(fn.Blocks[0], m.entersState("MAIL"), nil) == nil {
+				notFalse := func(in ssa.Instruction) bool {
+					ret, ok := in.(*ssa.Return)
+					if !ok {
+						return false
+					}
+					b, isC := eng.ConstBool(ret.Results[0])
+					return !(isC && !b)
+				}
+				prob := ""
+				if hit := eng.BlockReaches(over, notFalse, nil); hit != nil {
+					prob = "the over-limit edge of the helper can report acceptance at " + p.InstrPos(hit)
+				} else if eng.BlockReaches(under, notFalse, nil) == nil {
+					prob = "the within-limit edge of the helper never reports acceptance: every SIZE= would be refused"
+				} else if ret := eng.BlockReaches(over, eng.IsReturn, func(in ssa.Instruction) bool {
+					if !m.isSend(in) {
+						return false
+					}
+					pre, ok := m.sendPrefix(in)
+					return replyClass(pre, ok) == '5'
+				}); ret != nil {
+					prob = "over-limit edge can return at " + p.InstrPos(ret) + " without a 5xx reply"
+				} else {
+					sites := p.StaticCallSites(fn)
+					if len(sites) == 0 {
+						prob = "the gate helper is never called"
+					}
+					for _, cs := range sites {
+						cfn := cs.Instr.Parent()
+						callV, _ := cs.Instr.(*ssa.Call)
+						var fEdge, tEdge *ssa.BasicBlock
+						for _, b := range cfn.Blocks {
+							for k := 0; k < len(b.Succs) && len(b.Succs) == 2; k++ {
+								v, pol, ok := eng.CondTruth(b, k)
+								if ok && callV != nil && v == ssa.Value(callV) {
+									if pol {
+										tEdge = b.Succs[k]
+									} else {
+										fEdge = b.Succs[k]
+									}
+								}
+							}
+						}
+						switch {
+						case fEdge == nil || tEdge == nil:
+							prob = "the verdict of " + shortFn(fn) + " is not branched on at " + p.InstrPos(cs.Instr.(ssa.Instruction))
+						case eng.BlockReaches(fEdge, m.entersState("MAIL"), nil) != nil:
+							prob = "after a refusal by " + shortFn(fn) + " the caller still reaches enterState(MAIL)"
+						case eng.BlockReaches(tEdge, m.entersState("MAIL"), nil) == nil:
+							prob = "after acceptance by " + shortFn(fn) + " the caller cannot reach enterState(MAIL)"
+						}
+					}
+				}
+				if prob == "" {
+					if why := lossyParsedConv(g.sizeVal); why != "" {
+						prob = "the declared SIZE is converted before the comparison in a way that can change its value (" + why + ")"
+					}
+				}
+				if prob != "" {
+					r.Bad("C06/SIZE/mail", cons, site, "%s", prob)
+				} else {
+					r.Ok("C06/SIZE/mail", cons, site, "strict `size > max` in a helper: over-limit edge replies 5xx and reports false; callers reach MAIL only on true")
+				}
+				continue
+			}
 			if hit := eng.BlockReaches(over, m.entersState("MAIL"), nil); hit != nil {
 				r.Bad("C06/SIZE/mail", cons, site, "over-limit edge reaches enterState(MAIL) at %s: a declared SIZE above the limit is accepted", p.InstrPos(hit))
 				continue
@@ -560,4 +628,14 @@ func (c *Ctx) c06ReadBound(m *smtpModel) string {
 		}
 	})
 	return why
+}
+
+// resultIsBool: fn has exactly one result and it is a bool.
+func resultIsBool(fn *ssa.Function) (bool, bool) {
+	res := fn.Signature.Results()
+	if res.Len() != 1 {
+		return false, true
+	}
+	b, ok := res.At(0).Type().Underlying().(*types.Basic)
+	return ok && b.Kind() == types.Bool, true
 }
